@@ -363,7 +363,8 @@ def _decrypt_hmac(key: bytes, data: bytes, digest: str) -> bytes:
         decrypted = decrypted[: -decrypted[-1]]
 
     # We don't do any secret crypto so we don't care about the warning in the docs about timing attacks
-    if hmac.digest(key, decrypted, digest) != mac:
+    # Truncated variants (HMAC-SHA-1-128) only store the first digest_size bytes of the digest
+    if hmac.digest(key, decrypted, digest)[:digest_size] != mac:
         raise ValueError("Invalid HMAC, wrong key?")
 
     return decrypted
